@@ -296,7 +296,7 @@ class FakeSock:
         return len(b)
 
     def recv(self, n):
-        _park('dev.read', self, 0.01)
+        _park('dev.read', self, 0.05)
         if self.closed:
             raise OSError(9, 'Bad file descriptor')
         return b''
@@ -980,7 +980,7 @@ def replay_behaviour(job):
                     if rec is None or rec.finished:
                         return
                     p = radio_parked()
-                    if p in ('tx', 'ack', 'get'):
+                    if p in ('tx', 'ack', 'get') and not w.in_callback:
                         return
                     if rec.pending is None:
                         return
@@ -1046,7 +1046,7 @@ def replay_behaviour(job):
                 grant(u)                         # the begin event is logged
                 return True
 
-            prev_h = 0
+            user_to(('api.idle',))
             for (label, st) in beh[1:]:
                 name, args = tlc.parse_label(label)
                 total += 1
@@ -1135,9 +1135,9 @@ def replay_behaviour(job):
                 if name not in ('CbCloseB',):
                     hist = [[e['e'], e['a']] for e in w.ev if e['e'] in H_EVENTS]
                     want = [[e['e'], e['a']] for e in st['h']]
-                    if name == 'TErr' and sc['cb'] and st['cbc'] == 'pend':
+                    if st['cbc'] == 'pend':        # the callback's close() runs inside the same step of the comm thread
                         want = want + [['closeb', 0], ['close', 1]]
-                    if st['cbc'] == 'idle' or name == 'TErr':
+                    if st['cbc'] in ('idle', 'pend'):
                         ok = ok and hist == want
                     if st['upc'] == 'idle' and st['cbc'] == 'idle':
                         ok = ok and bool(w.held()) == bool(st['handle'])
@@ -1163,29 +1163,80 @@ def _replay_job(job):
                 'ev': [], 'kind': job[0], 'cb': job[1], 'sl': job[2]}
 
 
-def spec_to_code(out, tier, seed):
-    """Behaviours of the design spec (graph tour of a small configuration: every transition at least
-    once; plus random simulation of the large one) replayed into the real drivers."""
-    jobs = []
-    r, g = tlc.dump_graph('MC_DriverClose.tla', 'MC_DriverClose_tour.cfg', timeout=900, heap='3g')
-    out.add_tlc('MC_DriverClose_tour.cfg (state graph for the transition tour)', r)
-    paths, covered, total = tlc.tour(g, max_len=60)
-    for (init, path) in paths:
-        st0 = g.states[init]
-        beh = [('Init', st0)] + [(lab, g.states[dst]) for (lab, dst) in path]
-        jobs.append((st0['kind'], bool(st0['cbcl']), bool(st0['sl']), beh))
+def _tlc_jobs(tier, seed):
+    """The TLC runs on the design spec.  They are independent of each other: run side by side."""
+    mc = (('MC_DriverClose_quick.cfg', 'MC_DriverClose_radio_quick.cfg', 'MC_DriverClose_agree.cfg') if tier == 'quick' else
+          ('MC_DriverClose_thorough.cfg', 'MC_DriverClose_radio_thorough.cfg', 'MC_DriverClose_agree.cfg'))
     nsim = 150 if tier == 'quick' else 1500
-    rs, behs = tlc.simulate('MC_DriverClose.tla', 'SIM_DriverClose.cfg', num=nsim, depth=45, seed=seed % 100000, timeout=900, heap='3g')
-    out.add_tlc('SIM_DriverClose.cfg (-simulate num=%d)' % nsim, rs)
-    for beh in behs:
-        st0 = beh[0][1]
-        jobs.append((st0['kind'], bool(st0['cbcl']), bool(st0['sl']), beh))
+    jobs = [('check', cfg, lambda cfg=cfg: tlc.check('MC_DriverClose.tla', cfg, timeout=2400, heap='3g', workers=max(2, common.NCPU // 2)))
+            for cfg in mc]
+    jobs += [('bug', b, lambda b=b: tlc.expect_violation('MC_DriverClose.tla', 'MC_DriverClose_bug_%s.cfg' % b, timeout=900,
+                                                         heap='1g', workers=2))
+             for b in BUG_CFGS]
+    jobs.append(('tour', 'MC_DriverClose_tour.cfg',
+                 lambda: tlc.dump_graph('MC_DriverClose.tla', 'MC_DriverClose_tour.cfg', timeout=900, heap='2g', workers=4)))
+    jobs.append(('sim', 'SIM_DriverClose.cfg (-simulate num=%d)' % nsim,
+                 lambda: tlc.simulate('MC_DriverClose.tla', 'SIM_DriverClose.cfg', num=nsim, depth=45, seed=seed % 100000,
+                                      timeout=900, heap='2g')))
+    return jobs
+
+
+BUG_CFGS = ('keepHandleOnError', 'keepHandleOnError_tcp', 'noDrop', 'noJoin', 'keepOutQueue')
+
+
+def design_spec(out, tier, seed):
+    """Exhaustive checks, bug configurations (each must be refuted), state graph for the transition
+    tour, random behaviours.  Returns the replay jobs for spec_to_code."""
+    from concurrent.futures import ThreadPoolExecutor
+    jobs = _tlc_jobs(tier, seed)
+    with ThreadPoolExecutor(max_workers=4) as ex:
+        futs = [ex.submit(fn) for (_k, _n, fn) in jobs]
+        results = []
+        err = None
+        for f in futs:
+            try:
+                results.append(f.result())
+            except (tlc.TLCError, common.MachineryError) as e:
+                results.append(None)
+                err = err or e
+        if err is not None:
+            raise err
+    replays = []
+    tour_info = {}
+    for (k, name, _fn), r in zip(jobs, results):
+        if k == 'check':
+            out.add_tlc(name, r)
+        elif k == 'bug':
+            out.sensitivity['drivers-spec:' + name] = 'refuted (%s) after %d states' % (r.violated, r.distinct)
+        elif k == 'tour':
+            rr, g = r
+            out.add_tlc(name + ' (state graph for the transition tour)', rr)
+            paths, covered, total = tlc.tour(g, max_len=80)
+            tour_info = {'tour_paths': len(paths), 'tour_edges_covered': '%d/%d' % (covered, total)}
+            for (init, path) in paths:
+                st0 = g.states[init]
+                beh = [('Init', st0)] + [(lab, g.states[dst]) for (lab, dst) in path]
+                replays.append((st0['kind'], bool(st0['cbcl']), bool(st0['sl']), beh))
+        else:
+            rs, behs = r
+            out.add_tlc(name, rs)
+            for beh in behs:
+                st0 = beh[0][1]
+                replays.append((st0['kind'], bool(st0['cbcl']), bool(st0['sl']), beh))
+    return replays, tour_info
+
+
+def spec_to_code(out, replays, tour_info, kinds):
+    """Behaviours of the design spec (graph tour of a small configuration: every transition at least
+    once; plus random simulation of a large one) replayed into the real drivers."""
+    jobs = [j for j in replays if j[0] in kinds]
     reps = common.pmap(_replay_job, jobs, init=_init, maxtasks=200)
-    out.conformance['drivers_spec_to_code'] = {
-        'behaviours': len(jobs), 'tour_paths': len(paths), 'tour_edges_covered': '%d/%d' % (covered, total),
-        'fully_matched': sum(1 for x in reps if x['matched'] == x['total']),
-        'steps': sum(x['total'] for x in reps), 'steps_matched': sum(x['matched'] for x in reps),
-        'first_mismatches': [x['first'] for x in reps if x['first']][:3]}
+    d = {'behaviours': len(jobs)}
+    d.update(tour_info)
+    d.update({'fully_matched': sum(1 for x in reps if x['matched'] == x['total']),
+              'steps': sum(x['total'] for x in reps), 'steps_matched': sum(x['matched'] for x in reps),
+              'first_mismatches': [x['first'] for x in reps if x['first']][:3]})
+    out.conformance['drivers_spec_to_code'] = d
     traces = []
     for x in reps:
         if x['ev']:
@@ -1195,6 +1246,9 @@ def spec_to_code(out, tier, seed):
 
 
 # --------------------------------------------------------------------------- main entry
+DEPTH = {'quick': {'usb': 3, 'radio': 3, 'tcp': 3, 'udp': 4}, 'thorough': {'usb': 5, 'radio': 4, 'tcp': 5, 'udp': 6}}
+
+
 def run(out, tier, seed, kinds=KINDS):
     """Adds the driver-level check of C10's closed-link clauses to `out`."""
     rng = random.Random(seed + 1010)
@@ -1206,21 +1260,15 @@ def run(out, tier, seed, kinds=KINDS):
         'overlap each other (the comm threads run concurrently with all of them)',
     ]
     # 1. design spec
-    for cfg in (('MC_DriverClose_quick.cfg', 'MC_DriverClose_radio_quick.cfg', 'MC_DriverClose_agree.cfg') if tier == 'quick' else
-                ('MC_DriverClose_thorough.cfg', 'MC_DriverClose_radio_thorough.cfg', 'MC_DriverClose_agree.cfg')):
-        r = tlc.check('MC_DriverClose.tla', cfg, timeout=2400, heap='3g')
-        out.add_tlc(cfg, r)
-    for b in ('keepHandleOnError', 'keepHandleOnError_tcp', 'noDrop', 'noJoin', 'keepOutQueue'):
-        rb = tlc.expect_violation('MC_DriverClose.tla', 'MC_DriverClose_bug_%s.cfg' % b, timeout=900, heap='2g')
-        out.sensitivity['drivers-spec:' + b] = 'refuted (%s) after %d states' % (rb.violated, rb.distinct)
+    replays, tour_info = design_spec(out, tier, seed)
 
     # 2. spec -> code
-    traces = spec_to_code(out, tier, seed)
+    traces = spec_to_code(out, replays, tour_info, kinds)
     scs = [None] * len(traces)
 
     # 3. code -> spec: exhaustive enumeration + targeted + seeded random
-    depth = {'quick': {'usb': 4, 'radio': 3, 'tcp': 4, 'udp': 5}, 'thorough': {'usb': 5, 'radio': 5, 'tcp': 5, 'udp': 6}}[tier]
-    nrand = 150 if tier == 'quick' else 3000
+    depth = DEPTH[tier]
+    nrand = 100 if tier == 'quick' else 3000
     space = {}
     own = []
     for k in kinds:
@@ -1244,42 +1292,52 @@ def run(out, tier, seed, kinds=KINDS):
         'exhaustive_sequences': {k: {'ops_after_first_connect_up_to': depth[k], 'scenarios': space[k]} for k in space},
         'distinct_histories': len({json.dumps([[e['e'], e['a']] for e in t['ev']]) for t in traces}),
         'device_writes_observed': sum(1 for t in traces for e in t['ev'] if e['e'] == 'wr'),
-        'writes_after_a_session_was_closed_and_reopened': sum(1 for t in traces if _has_second_session_write(t)),
+        'traces_with_writes_in_a_second_session': sum(1 for t in traces if _has_second_session_write(t)),
         'sends_on_closed_objects': sum(1 for t in traces for i, e in enumerate(t['ev']) if e['e'] == 'send' and _closed_before(t['ev'], i)),
+        'closes_with_a_failing_device_call': sum(1 for t in traces for e in t['ev'] if e['e'] == 'closeb' and e.get('f', 'none') != 'none'),
     }
-    out.samples += [{'driver_scenario': own[i]['ops'], 'kind': own[i]['kind'], 'events': [[e['e'], e['a']] for e in got[i]['ev'][:14]]}
-                    for i in (0, len(own) // 2)]
+    if own:
+        out.samples += [{'driver_scenario': own[i]['ops'], 'kind': own[i]['kind'], 'events': [[e['e'], e['a']] for e in got[i]['ev'][:14]]}
+                        for i in (len(own) // 3, len(own) // 2)]
 
-    # 4. sensitivity: in-memory mutants, corrupted trace
+    # 4. sensitivity: in-memory mutants (all judged in one batch), corrupted trace
+    mt = []
+    owner = []
     for name in sorted(MUTANTS):
         k = MUTANT_KIND[name]
         if k not in kinds:
             continue
-        sub = enumerate_scenarios(k, 3) + targeted_scenarios(k)
-        mt = run_scenarios(sub, mutant=name)
-        for i, t in enumerate(mt):
-            t['id'] = i + 1
-        o2 = common.Outcome('C10', tier, seed)
-        mres = judge(o2, mt, 'mutant ' + name)
-        mbad = [x for x in mres if x[1] != 'ok']
-        out.sensitivity['drivers-mutant:' + name] = '%d of %d traces rejected (%s)' % (
-            len(mbad), len(mt), ','.join(sorted({x[1] for x in mbad})))
-        if not mbad:
-            raise common.MachineryError('monitor did not reject in-memory driver mutant %s' % name)
-    good = next((t for t in traces if t['kind'] == 'usb' and _movable(t)), None)
+        sub = enumerate_scenarios(k, 2) + targeted_scenarios(k)
+        part = run_scenarios(sub, mutant=name)
+        mt += part
+        owner += [name] * len(part)
+    good = next((t for t in traces if t['kind'] in ('usb', 'tcp', 'udp') and _movable(t)), None)
     if good is None:
-        raise common.MachineryError('no usb trace with a write followed by a close to corrupt')
+        raise common.MachineryError('no trace with a request write followed by a close to corrupt')
     t0 = copy.deepcopy(good)
     i = next(i for i, e in enumerate(t0['ev']) if e['e'] == 'wr' and e['a'] != 0)
     j = next(j for j, e in enumerate(t0['ev']) if j > i and e['e'] == 'close' and e['a'] == 1)
     wr = t0['ev'].pop(i)
     t0['ev'].insert(j, wr)           # the write now comes after the return of close()
-    t0['id'] = 1
+    mt.append(t0)
+    owner.append('<corrupted>')
+    for n, t in enumerate(mt):
+        t['id'] = n + 1
     o2 = common.Outcome('C10', tier, seed)
-    cres = judge(o2, [t0], 'corrupted')
-    out.sensitivity['drivers-binding:write-moved-behind-close'] = 'rejected (%s)' % cres[0][1] if cres[0][1] != 'ok' else 'ACCEPTED'
-    if cres[0][1] == 'ok':
-        raise common.MachineryError('driver trace spec accepted a corrupted trace')
+    mres = judge(o2, mt, 'mutants')
+    out.tlc_runs.append(o2.tlc_runs[-1])
+    for name in sorted(set(owner)):
+        mine = [x for x, o in zip(mres, owner) if o == name]
+        mbad = [x for x in mine if x[1] != 'ok']
+        if name == '<corrupted>':
+            out.sensitivity['drivers-binding:write-moved-behind-close'] = ('rejected (%s)' % mbad[0][1]) if mbad else 'ACCEPTED'
+            if not mbad:
+                raise common.MachineryError('driver trace spec accepted a corrupted trace')
+            continue
+        out.sensitivity['drivers-mutant:' + name] = '%d of %d traces rejected (%s)' % (
+            len(mbad), len(mine), ','.join(sorted({x[1] for x in mbad})))
+        if not mbad:
+            raise common.MachineryError('monitor did not reject in-memory driver mutant %s' % name)
     return out
 
 
